@@ -19,11 +19,15 @@ IsZero(x) == x >= -Eps /\ x <= Eps
 
 KernelFails(ev) ==
   IF ev.raised THEN {"raised"}
+  ELSE IF ~ev.shape_ok THEN {"kernel_not_on_the_current_grid"}
   ELSE CASE ev.kind = "aperture" ->
          (IF InUnit(ev) THEN {} ELSE {"transmission_in_unit_interval"})
     \cup (IF ev.n_inner = 0 \/ (IsOne(ev.inner_min) /\ IsOne(ev.inner_max)) THEN {} ELSE {"one_inside_cutoff"})
     \cup (IF ev.n_outer = 0 \/ (IsZero(ev.outer_min) /\ IsZero(ev.outer_max)) THEN {} ELSE {"zero_outside_cutoff"})
     \cup (IF ev.soft \/ ev.binary THEN {} ELSE {"hard_aperture_is_binary"})
+    \* on a coordinate axis the radial extent of a pixel is that axis' own angular sampling, whatever "a pixel" means elsewhere
+    \cup (IF ev.n_axis_inner = 0 \/ IsOne(ev.axis_inner_min) THEN {} ELSE {"soft_edge_wider_than_a_pixel_along_an_axis"})
+    \cup (IF ev.n_axis_outer = 0 \/ IsZero(ev.axis_outer_max) THEN {} ELSE {"soft_edge_wider_than_a_pixel_along_an_axis"})
     [] ev.kind \in {"temporal", "spatial"} ->
          (IF InUnit(ev) THEN {} ELSE {"envelope_in_unit_interval"})
     \cup (IF IsOne(ev.at_zero) THEN {} ELSE {"envelope_is_one_at_zero_angle"})
